@@ -250,6 +250,9 @@ fn cpc_cell(ctx: &mut Ctx, case: &Json) {
         "list:cpc_size_cells",
         Json::Arr(vec![Json::obj().set("lg_k", lg_k).set("trials", trials).set("exceed", exceed).set("worst_ratio", worst_ratio).set("bound_bytes", bound)]),
     );
+    ctx.cover(&format!("cpc_cell_lg_k_{:02}", lg_k));
+    ctx.cover_n("cpc_trials", trials);
+    ctx.cover_max("cpc_worst_size_over_max_serialized_bytes", worst_ratio);
     let mut fp = Fp::new();
     fp.u64(lg_k as u64);
     fp.u64(exceed);
@@ -277,6 +280,12 @@ fn stream_case(ctx: &mut Ctx, case: &Json) {
         Some("fixed") => fixed_size_streams(ctx, &mut rng, n, kind),
         other => ctx.inconclusive(format!("C18: unknown family {:?}", other)),
     }
+    ctx.cover(&format!("stream_{}", case.str("family").unwrap_or("?")));
+    ctx.cover(&format!("stream_kind_{}", kind));
+    if n >= 1 << 20 {
+        ctx.cover("stream_of_2^20_or_more_items");
+    }
+    ctx.cover_n("power_of_two_prefixes_measured", 64 - n.leading_zeros() as u64);
     let mut fp = Fp::new();
     fp.u64(case.u64("seed").unwrap_or(0));
     fp.u64(n);
